@@ -295,6 +295,23 @@ func runC12(r *Rng, n int, replay string) {
 			continue
 		}
 		uerr := tfs.UnarchiveErr()
+		if escape && uerr != nil && destKind != "os" {
+			// the failure must not depend on how the background writers are scheduled: unpack the same archive again
+			for rep := 0; rep < 5 && uerr != nil; rep++ {
+				o2 := hptar.ReaderFSOptions{}
+				if destKind == "mem" {
+					o2.UnarchiveFS = newMem().(*mem.FS)
+				} else if destKind == "minimal" {
+					o2.UnarchiveFS = tarMinimal{newMem().(*mem.FS)}
+				}
+				t2, err2 := hptar.NewReaderFS(context.Background(), bytes.NewReader(buildTar(es)), o2)
+				if err2 != nil {
+					break
+				}
+				<-t2.Done()
+				uerr = t2.UnarchiveErr()
+			}
+		}
 		got, werr := walkTree(tfs)
 		switch {
 		case escape:
